@@ -112,7 +112,7 @@ func (vc *VC) Solve(o *Obl, dir string, quickSec, slowSec int, cross bool) {
 	if hs := hintFor(o.Name); hs != nil {
 		hfile := filepath.Join(dir, smtName(o.Name)+".hinted.smt2")
 		if err := os.WriteFile(hfile, []byte(vc.hintedScript(o, hs)), 0o644); err == nil {
-			rh := runSolver(solvers[0], hfile, 5)
+			rh := runSolver(solvers[0], hfile, quickSec)
 			o.TimeS += rh.secs
 			if rh.status == "unsat" {
 				o.Status, o.Solver, o.File = "unsat", rh.solver+" (core-hinted context)", hfile
